@@ -179,7 +179,7 @@ PUSH_TRUSTED = ["abstract file system RQ/Model/FS.lean stands for the kernel (le
                 "presentation options at all; runs with -v/-vv/--stats/--color/-A must give the model's result"]
 
 PROPS['C10'] = {
-    'theorems': ['RQ.Push.C10_no_write', 'RQ.Push.applyLoop_dry_same_final'],
+    'theorems': ['RQ.Push.C10_no_write', 'RQ.Push.applyLoop_dry_same_final', 'RQ.Push.C10_parallel'],
     'verdict': 'C10',
     'jobs': push_jobs(['dry=50', 'inv=2'], ['dry=50', 'inv=3'], nq=4000) +
             [{'quick': ['pushsched', 'seed={seed}', 'n=900', 'perws=3', 'dry=100', 'fail=90', 'morefail=85'], 'thorough': ['pushsched', 'seed={seed}', 'n=30000', 'perws=6', 'dry=100', 'fail=90', 'morefail=85']}],
@@ -268,9 +268,9 @@ PROPS['C16'] = {
 }
 PROPS['C11'] = {
     'module': 'RQ.Props.C11',
-    'theorems': ['RQ.Parse.C11_fuel', 'RQ.Parse.C11_noMatch', 'RQ.Parse.C11_wf', 'RQ.Parse.C11_alloc', 'RQ.Parse.C11_scan_bounded'],
+    'theorems': ['RQ.Parse.C11_fuel', 'RQ.Parse.C11_noMatch', 'RQ.Parse.C11_wf', 'RQ.Parse.C11_alloc', 'RQ.Parse.C11_scan_bounded', 'RQ.Parse.C11_strip_bounded', 'RQ.Parse.C11_strip_huge_refused'],
     'verdict': 'C11',
-    'jobs': [{'quick': ['parse', 'seed={seed}', 'n=60000'], 'thorough': ['parse', 'seed={seed}', 'n=1500000']},
+    'jobs': [{'quick': ['parse', 'seed={seed}', 'n=60000'], 'thorough': ['parse', 'seed={seed}', 'n=1500000', 'huge=40']},
              {'quick': ['series', 'seed={seed}', 'n=20000'], 'thorough': ['series', 'seed={seed}', 'n=400000']}] +
             push_jobs(['evil=70'], ['evil=70', 'inv=2'], nq=4000, nt=100000),
     'nontrivial': lambda l: True,
@@ -291,7 +291,7 @@ PROPS['C11'] = {
 PROPS['C12'] = {
     'theorems': ['RQ.Write.C12_partial', 'RQ.Write.C12_fixpoint', 'RQ.Write.C12_full_false'],
     'verdict': 'C12',
-    'jobs': [{'quick': ['parse', 'seed={seed}', 'n=60000'], 'thorough': ['parse', 'seed={seed}', 'n=1500000']}],
+    'jobs': [{'quick': ['parse', 'seed={seed}', 'n=60000'], 'thorough': ['parse', 'seed={seed}', 'n=1500000', 'huge=40']}],
     'nontrivial': lambda l: '|=>|OK ' in l and 'hunks=[' in l,
     'histogram': lambda c, d: ['impl=' + c.split('|=>|')[-1].split(' ')[0][:12], 'C12=' + (field(d, 'C12') or '?').split(':')[0]],
     'rule': "parse engine as for C11; every accepted input is written with the real UnifiedPatchWriter, parsed again (strip 0) and "
@@ -344,9 +344,9 @@ PROPS['C09'] = {
     'assumptions': ["that the tree between two invocations equals the flushed in-memory state is established by the correspondence run (model saveAll vs real tree), not by a theorem"],
 }
 PROPS['C13'] = {
-    'theorems': ['RQ.Write.writeRej_eq', 'RQ.Write.C13_rej_parses', 'RQ.Write.C13_no_rej_on_success'],
+    'theorems': ['RQ.Write.writeRej_eq', 'RQ.Write.C13_rej_parses', 'RQ.Write.C13_no_rej_on_success', 'RQ.Write.C13_rej_on_disk', 'RQ.Write.C13_rej_on_disk_once', 'RQ.Write.C13_rej_no_dir'],
     'verdict': 'C13',
-    'jobs': push_jobs(['inv=2'], ['inv=3']),
+    'jobs': push_jobs(['inv=2'], ['inv=3'], nq=5000) + push_jobs(['inv=1', 'bigfile=15', 'large=5'], ['inv=2', 'bigfile=15', 'large=5', 'huge=30'], nq=1000, nt=20000),
     'nontrivial': lambda l: '2e72656a:' in l.split('|=>|')[-1],
     'histogram': push_hist,
     'rule': PUSH_RULE + "; failures are injected in any file patch of the failing patch (corrupted context or removed lines, "
@@ -363,7 +363,7 @@ PROPS['C13'] = {
 
 
 PROPS['C05'] = {
-    'theorems': ['RQ.Abs.C05_apply_refines', 'RQ.Abs.C05_tree_on_disk', 'RQ.Abs.C05_exit_and_names'],
+    'theorems': ['RQ.Abs.C05_apply_refines', 'RQ.Abs.C05_tree_on_disk', 'RQ.Abs.C05_oracle_agrees', 'RQ.Abs.C05_disk_is_oracle', 'RQ.Abs.C05_pushSpec_agrees', 'RQ.Abs.C05_disk_is_pushSpec', 'RQ.Abs.C05_exit_and_names'],
     'verdict': 'SPEC',
     'jobs': push_jobs(['inv=2', 'patches=5'], ['inv=3', 'patches=6'], nq=4000) +
             [{'quick': ['pushsched', 'seed={seed}', 'n=900', 'perws=3', 'fail=75', 'morefail=70'], 'thorough': ['pushsched', 'seed={seed}', 'n=30000', 'perws=6', 'fail=75', 'morefail=70']}],
@@ -409,11 +409,12 @@ PROPS['C08'] = {
 PROPS['C18'] = {
     'theorems': ['RQ.Push.C18_fault_is_error', 'RQ.Push.C18_success_means_no_fault', 'RQ.Push.C18_recorded_last'],
     'verdict': 'C18',
-    'jobs': [{'quick': ['pushfault', 'seed={seed}', 'n=2500', 'perws=8'], 'thorough': ['pushfault', 'seed={seed}', 'n=60000', 'perws=64']}],
+    'jobs': [{'quick': ['pushfault', 'seed={seed}', 'n=2000', 'perws=8'], 'thorough': ['pushfault', 'seed={seed}', 'n=60000', 'perws=64']},
+             {'quick': ['pushfault', 'seed={seed}', 'n=1200', 'perws=8', 'threads=2,3,4'], 'thorough': ['pushfault', 'seed={seed}', 'n=30000', 'perws=64', 'threads=2,3,4,8']}],
     'nontrivial': lambda l: True,
     'histogram': lambda c, d: ['op=' + (re.search(r'op=([a-z_]+)', c).group(1) if re.search(r'op=([a-z_]+)', c) else '?'),
                                'where=' + ('applied-patches' if '6170706c6965642d70617463686573;' in c.split('|=>|')[-1].split('op=')[-1][:120] else
-                                           'rej' if '2e72656a;' in c.split('op=')[-1][:200] else 'pc' if 'op=' in c and c.split('op=')[-1].split(':')[1][:6] == '2e7063' else 'tree')],
+                                           'rej' if '2e72656a;' in c.split('op=')[-1][:200] else 'none' if 'op=-;' in c else 'pc' if 'op=' in c and (c.split('op=')[-1].split(':') + ['', ''])[1][:6] == '2e7063' else 'tree')],
     'rule': "generated workspace (as for C05, up to 3 patches), one invocation; a fault-free run counts the n file-system write "
             "operations (remove_file, create_dir_all, create, set_permissions, write of modified files, reject files, backup "
             "files, .pc/applied-patches, remove_dir of emptied directories); then the same invocation is repeated in a fresh copy "
